@@ -159,8 +159,7 @@ class C03(Check):
     trace_module = "TraceEinsum"
     trace_cfg = "TraceEinsum.cfg"
     rule = ("cases = states of GenEinsum: EVERY pair of index lists of operand ranks 1..3 (quick; 1..4 thorough, quick samples rank 4) in which no "
-            "label occurs more than twice (all partial matchings of the positions between and within the two lists, canonical labels; "
-            "minus the patterns no configuration compiles), each with one or two extent assignments from {1,2,3,4,5,8,9} (distinct labels "
+            "label occurs more than twice (all partial matchings of the positions between and within the two lists, canonical labels), each with one or two extent assignments from {1,2,3,4,5,8,9} (distinct labels "
             "-> distinct extents within a budget of multiply-adds; last label of b a multiple / a non-multiple of the vector widths); forms "
             "einsum<I,J>, contraction<I,J>, einsum<I,J,OIndex> (C++17 configurations), einsum<I>(a) for every rank 1..4 pattern (+OIndex), "
             "inner, outer; each case on 2 data draws (random small integers in [-4,4], position-revealing); distinct = distinct (case, draw) "
@@ -180,11 +179,8 @@ class C03(Check):
         return ["%s-%s-O2" % (i, s) for i in ALL_ISAS for s in ("14", "17")] + ["avx2-14-O2+CONTRACT_OPT=%d" % k for k in (-1, 1, 2)]
 
     def model_checks(self, ctx):
-        # L2 => L1 without the exemption of the reported defect classes: TLC finds the counterexample by itself (documented, expected)
-        model_check(ctx, "MC_EinsumDispatch", "MC_EinsumDispatch.cfg", workers=1, expect_violation="AllRoutesRefineL1",
-                    env={"VERIF_SEED": str(ctx.seed)})
-        # ... and with the exemption it holds for every pattern of ranks <= 3 under every vector setting
-        model_check(ctx, "MC_EinsumDispatch", "MC_EinsumDispatch_sound.cfg", workers=1, env={"VERIF_SEED": str(ctx.seed)})
+        # L2 => L1, no exemptions: every pair pattern of ranks <= 3, einsum / contraction, scalar and SIMD build, uniform vectorisable extents
+        model_check(ctx, "MC_EinsumDispatch", "MC_EinsumDispatch.cfg", workers=1, env={"VERIF_SEED": str(ctx.seed)})
 
     def plan(self, ctx):
         cfg = "GenEinsum_%s.cfg" % ctx.tier
@@ -199,11 +195,9 @@ class C03(Check):
         items.sort(key=lambda c: c["case"])
         if len({c["case"] for c in items}) != len(items):
             raise ToolFailure("GenEinsum: case ids are not unique")
-        self.routes, self.classes = {}, {}
+        self.routes = {}
         for c in items:
             self.routes[c["route"]] = self.routes.get(c["route"], 0) + 1
-            if c["defect"]:
-                self.classes[c["defect"]] = self.classes.get(c["defect"], 0) + 1
         self.by_case = {c["case"]: c for c in items}
         return items
 
@@ -317,5 +311,5 @@ class C03(Check):
         return ev["e"] == "Einsum"
 
     def extra_coverage(self, ctx):
-        return {"l2_route_counts": getattr(self, "routes", {}), "l2_defect_class_cases": getattr(self, "classes", {}),
+        return {"l2_route_counts": getattr(self, "routes", {}),
                 "model_drift_cases": getattr(self, "drift", [])}
